@@ -34,7 +34,7 @@ func c12FromGts(ff []gts.Feature) ([]c12Feature, bool) {
 		if !ok || !ast.wellFormed() {
 			return nil, false
 		}
-		out[i] = c12Feature{Key: f.Key, Props: fmt.Sprint([][]string(f.Props)), Loc: ast}
+		out[i] = c12Feature{Key: f.Key, Props: string(mustJSON([][]string(f.Props))), Loc: ast}
 	}
 	return out, true
 }
@@ -230,7 +230,7 @@ func c12Check(c c12Case) *Violation {
 	if c.Mode == "program" {
 		origF := make([]c12Feature, len(c.Feats))
 		for i, f := range c.Feats {
-			origF[i] = c12Feature{Key: f.Key, Props: fmt.Sprint(f.Quals), Loc: f.Loc}
+			origF[i] = c12Feature{Key: f.Key, Props: string(mustJSON(f.Quals)), Loc: f.Loc}
 		}
 		a, b := c12Multiset(origF, true), c12Multiset(res, true)
 		if fmt.Sprint(a) != fmt.Sprint(b) {
@@ -416,7 +416,12 @@ func c12Gen(t *rapid.T) c12Case {
 				l = lrg(0, L)
 			}
 			canon, _ := fromGts(toGts(l))
-			c.Feats = append(c.Feats, Feat{Key: key, Loc: canon, Quals: [][]string{{"label", fmt.Sprintf("u%d", i)}}})
+			quals := [][]string{{"label", fmt.Sprintf("u%d", i)}}
+			if rapid.IntRange(0, 2).Draw(t, "multi") == 0 {
+				// unique only through a later value of a multi-valued qualifier
+				quals = [][]string{{"note", "same"}, {"db_xref", "shared", fmt.Sprintf("id%d", i)}}
+			}
+			c.Feats = append(c.Feats, Feat{Key: key, Loc: canon, Quals: quals})
 		}
 		// a *set* of 1..3 cut positions (distinct, strictly inside the sequence: no empty pieces)
 		nc := rapid.IntRange(1, 3).Draw(t, "ncuts")
@@ -429,7 +434,7 @@ func c12Gen(t *rapid.T) c12Case {
 	c := c12Case{Mode: "table", L: L}
 	for i := 0; i < n; i++ {
 		key := rapid.SampledFrom([]string{"gene", "gene", "CDS", "source"}).Draw(t, "key")
-		q := rapid.SampledFrom([]string{"a", "a", "b"}).Draw(t, "q")
+		q := rapid.SampledFrom([][]string{{"gene", "a"}, {"gene", "a"}, {"gene", "b"}, {"gene", "a", "x"}, {"gene", "a", "y"}, {"gene", "a x"}, {"gene", "a", "x", "y"}}).Draw(t, "q")
 		var l Loc
 		if rapid.Bool().Draw(t, "simple") {
 			s := cfg.coord(t, 0, L-1, "s")
@@ -441,7 +446,7 @@ func c12Gen(t *rapid.T) c12Case {
 		} else {
 			l = genLoc(t, cfg)
 		}
-		c.Feats = append(c.Feats, Feat{Key: key, Loc: l, Quals: [][]string{{"gene", q}}})
+		c.Feats = append(c.Feats, Feat{Key: key, Loc: l, Quals: [][]string{append([]string(nil), q...)}})
 	}
 	return c
 }
